@@ -42,8 +42,26 @@ def verify(d):
             res["apply_out"] = out[-500:]
         else:
             rc, out = sh(f"{PY} -m pytest -q -p no:cacheprovider -x", cwd=wt, env=env, timeout=900)
-            if rc != 0:  # timing tests can flake under load: retry once
-                rc, out = sh(f"{PY} -m pytest -q -p no:cacheprovider -x", cwd=wt, env=env, timeout=900)
+            if rc != 0:
+                # wall-clock assertions flake under load: run everything, then re-run the failed tests alone (up to 3 times each)
+                import re as _re
+                rc, out = sh(f"{PY} -m pytest -q -p no:cacheprovider", cwd=wt, env=env, timeout=900)
+                failed = _re.findall(r"^FAILED (\S+)", out, _re.M)
+                if rc != 0 and failed and len(failed) <= 6:
+                    still = []
+                    for t in failed:
+                        ok = False
+                        for _ in range(3):
+                            r2, o2 = sh(f"{PY} -m pytest -q -p no:cacheprovider '{t}'", cwd=wt, env=env, timeout=300)
+                            if r2 == 0:
+                                ok = True
+                                break
+                        if not ok:
+                            still.append(t)
+                    res["suite_failed_then_rerun_alone"] = failed
+                    if not still:
+                        rc = 0
+                        out += "\n(all initially failing tests passed when re-run alone: " + ", ".join(failed) + ")"
             res["suite_rc"] = rc
             res["suite_tail"] = out[-300:]
             rc, out = sh(f"{PY} {demo}", cwd=wt, env=env, timeout=600)
